@@ -236,6 +236,35 @@ def gen_inputs(rng: random.Random, notn: str, ref: pl.Ref, n_random: int, n_mut:
     return out
 
 
+def scope_matrix(notn: str, ref: pl.Ref):
+    """Quantifier-scope near misses, systematically: two quantifiers (siblings under a binary operator, or
+    nested, or one beside a free-standing body) over the variables x / y, with bodies that do or do not
+    mention each variable.  Well-formed, vacuous, rebinding and unbound combinations all occur."""
+    x, y, m = ['v', 0, 0], ['v', 1, 0], ['c', 0, 0]
+    F = [0, 0, 1]
+    bodies = [['P', F, [x]], ['P', F, [y]], ['P', F, [m]], ['A', 0, 0],
+              ['B', 'Conjunction', ['P', F, [x]], ['P', F, [y]]]]
+    out = []
+    for q1 in ('Universal', 'Existential'):
+        for v1 in (x, y):
+            for b1 in bodies:
+                for v2 in (x, y):
+                    for b2 in bodies:
+                        A1 = ['Q', q1, [v1[1], v1[2]], b1]
+                        A2 = ['Q', 'Universal', [v2[1], v2[2]], b2]
+                        out.append(['B', 'Conjunction', A1, A2])                     # siblings
+                        out.append(['B', 'Disjunction', A1, b2])                     # body after a closed scope
+                        out.append(['Q', q1, [v1[1], v1[2]], ['B', 'Conditional', b1, A2]])   # nested beside a body
+                    out.append(['Q', q1, [v1[1], v1[2]], ['Q', 'Existential', [v2[1], v2[2]], b1]])   # directly nested
+    seen, res = set(), []
+    for j in out:
+        st = render(notn, ref, j)
+        if st not in seen:
+            seen.add(st)
+            res.append(st)
+    return res
+
+
 def gen_histories(rng: random.Random, notn: str, ref: pl.Ref, n: int):
     hs = []
     for _ in range(n):
@@ -408,6 +437,11 @@ def _run(chk, args) -> int:
             jobs.append(dict(notation=notn, preds=st['preds'], auto=st['auto'], mode='fresh',
                              inputs=[s for _, s in gen[i:i + CH]], cats=[c for c, _ in gen[i:i + CH]]))
         compare_fresh(chk, jobs, f'Rnd_{notn}_', 'random', shard=1)
+        # ---- quantifier scope matrix (closed / vacuous / rebinding / unbound, siblings and nested)
+        sm = scope_matrix(notn, ref)
+        chk.count('category', f'{notn}:scope-matrix', len(sm))
+        compare_fresh(chk, [dict(notation=notn, preds=[[0, 0, 1]], auto=a_, mode='fresh', inputs=sm) for a_ in (True, False)],
+                      f'Scope_{notn}_', 'scope-matrix', shard=1)
         # ---- whitespace insensitivity: parse(i) = parse(i without whitespace characters)
         ws = {chr(c[0]) for c, k, v in tb['parse'][notn] if k == 'whitespace' and len(c) == 1}
         wsi = [s for _, s in gen if any(ch in ws for ch in s)][:4000 if thorough else 600]
@@ -420,7 +454,15 @@ def _run(chk, args) -> int:
         fj = [dict(notation=notn, preds=[[0, 0, 1]], auto=True, frozen=True, mode='fresh',
                    inputs=[render(notn, ref, ['P', [1, 0, 1], [['c', 0, 0]]]),
                            render(notn, ref, ['P', [0, 0, 1], [['c', 0, 0]]]),
-                           render(notn, ref, ['P', [1, 0, 1], [['c', 0, 0]]]) + ' ' + ref.sym('Variable', 0)])]
+                           render(notn, ref, ['P', [1, 0, 1], [['c', 0, 0]]]) + ' ' + ref.sym('Variable', 0)]
+                          + ([] if notn == 'polish' else
+                             # an undeclared predicate written infix, at the end of the input and followed by more input
+                             [ref.param(['c', 0, 0]) + ref.coords('Predicate', 1, 0) + ref.param(['c', 1, 0]),
+                              ref.sym('Operator', 'Negation') + ref.param(['c', 0, 0]) + ref.coords('Predicate', 1, 0) + ref.param(['c', 1, 0]),
+                              ref.param(['c', 0, 0]) + ' ' + ref.coords('Predicate', 1, 0) + ' ' + ref.param(['c', 1, 0]) + ' ',
+                              ref.param(['c', 0, 0]) + ref.coords('Predicate', 0, 0) + ref.param(['c', 1, 0]),
+                              ref.param(['c', 0, 0]) + ref.coords('Predicate', 1, 0) + ref.param(['c', 1, 0]) + ' '
+                              + ref.sym('Operator', 'Conjunction') + ' ' + ref.coords('Atomic', 0, 0)]))]
         compare_fresh(chk, fj, f'Frozen_{notn}_', 'frozen-store', shard=1)
         # ---- CPython boundary cases
         boundary(chk, notn, ref, thorough)
